@@ -364,6 +364,8 @@ def _make_exc(cls: str, name: str) -> BaseException:
         return Exception("injected failure in " + name)
     if cls == "ValueError":
         return ValueError("injected failure in " + name)
+    if cls == "KeyError":
+        return KeyError("injected failure in " + name)
     if cls == "KeyboardInterrupt":
         return KeyboardInterrupt("injected failure in " + name)
     if cls == "SystemExit":
